@@ -108,6 +108,7 @@ package vm
 //@ spec fun typeElem(t reflect.Type) reflect.Type
 //@ spec fun typeKey(t reflect.Type) reflect.Type
 //@ spec fun rtNumOut(t reflect.Type) int
+//@ spec fun typeIn(t reflect.Type, i int) reflect.Type
 //@ spec fun typeOfS(i any) reflect.Type
 // Go's own container operations as reflect performs them: v[i:j:k] (shares storage, capacity k-i), cap(v), structural equality
 //@ spec fun rvSlice3(v reflect.Value, i int, j int, k int) reflect.Value
